@@ -69,6 +69,16 @@ Keyed(raw, coll, V, o, l) == IF raw # "ok" /\ coll /\ ShiftingNonLast(V) /\ (IsV
                              ELSE raw
 VLift(ev) == Keyed(VLiftRaw(ev), ev[5], ev[3], ev[6], ev[4])
 VInc(ev) == Keyed(VIncRaw(ev), ev[6], ev[4], ev[7], ev[5])
+(* ["hapmap", memberSpans = <<s, e>>..., haplotypeSpans = <<s, e>>..., got = <<haplotypeIdx, <<memberIdx...>>>>...] :
+   AnnotationCollection.alternative_haplotype_mapping -- EVERY haplotype handed to the collection is associated with
+   exactly the members (genes, feature collections) whose span it overlaps, each once *)
+VHapMap(ev) ==
+  LET ms == ev[2] hs == ev[3] got == ev[4] IN
+  IF Len(got) # Len(hs) THEN "haplotype-mapping:every-haplotype"
+  ELSE IF \A h \in DOMAIN hs :
+          LET want == {m \in DOMAIN ms : ms[m][1] < hs[h][2] /\ hs[h][1] < ms[m][2]} IN
+          got[h][1] = h /\ Len(got[h][2]) = Cardinality(want) /\ {got[h][2][k] : k \in DOMAIN got[h][2]} = want
+  THEN "ok" ELSE "haplotype-mapping:overlapping-members"
 (* ["vcf", records = <<pos0, end0, alts = <<chars>>..., ps (or -1 unphased)>>..., groups = << <<start, end, alt>>... >>...]
    one variant per alternative allele; phased records grouped by phase set, unphased ones alone *)
 VVcf(ev) ==
@@ -98,7 +108,7 @@ VIncCdsRaw(ev) ==
   ELSE "ok"
 VIncCds(ev) == Keyed(VIncCdsRaw(ev), ev[6], ev[3], ev[7], ev[5])
 
-Verdict(ev) == CASE ev[1] = "inccds" -> VIncCds(ev) [] ev[1] = "alt" -> VAlt(ev) [] ev[1] = "altm" -> VAltMinus(ev) [] ev[1] = "lift" -> VLift(ev) [] ev[1] = "inc" -> VInc(ev)
+Verdict(ev) == CASE ev[1] = "inccds" -> VIncCds(ev) [] ev[1] = "alt" -> VAlt(ev) [] ev[1] = "altm" -> VAltMinus(ev) [] ev[1] = "hapmap" -> VHapMap(ev) [] ev[1] = "lift" -> VLift(ev) [] ev[1] = "inc" -> VInc(ev)
                  [] ev[1] = "vcf" -> VVcf(ev) [] OTHER -> "unknown-op"
 Bad == {i \in DOMAIN Trace : Verdict(Trace[i]) # "ok"}
 ASSUME \A i \in Bad : PrintT(<<"BAD", i, Verdict(Trace[i])>>)
